@@ -25,7 +25,19 @@ def target_name(pkg, d):
     return ":".join(s for s in (pkg.get("alias") or "", d["recv"], d["name"]) if s)
 
 
-def gen_decls(rng, next_def, nmax, used_lower, prefix):
+# identifiers with non-ASCII letters (precomposed, exported: first letter upper case), for target, namespace and
+# alias names; an all-ASCII name stays in each pool so that both kinds meet in one package
+NA_FUNC_NAMES = ["Überprüfen", "Ärger", "Éclair", "Ñandú", "Ωmega", "Žluťoučký", "Привет", "Ölwechsel", "Čistý", "BuildÜ", "TÉST", "Ð", "Build", "T"]
+NA_NS_NAMES = ["PRÜFUNG", "Δelta", "Šablona", "Ünï", "NS"]
+NA_ALIAS_NAMES = ["über", "ÄB", "prüf", "Ж", "ÇA", "bd", "Quick"]
+NA_ALIAS_TAGS = ["äl", "X"]
+
+
+def nonascii_chars():
+    return sorted(set(c for n in NA_FUNC_NAMES + NA_NS_NAMES + NA_ALIAS_NAMES + NA_ALIAS_TAGS for c in n if not c.isascii()))
+
+
+def gen_decls(rng, next_def, nmax, used_lower, prefix, FUNC_NAMES=FUNC_NAMES, NS_NAMES=NS_NAMES):
     """decls of one package; used_lower: lowered target names taken so far (collision-free by construction)."""
     decls = []
     nss = rng.sample(NS_NAMES, rng.choice([0, 0, 1, 1, 2]))
@@ -63,18 +75,23 @@ def gen_decls(rng, next_def, nmax, used_lower, prefix):
     return decls, nss
 
 
-def gen_project(rng, name):
+def gen_project(rng, name, nonascii=False):
+    fn, nsn, aln, tags = (NA_FUNC_NAMES, NA_NS_NAMES, NA_ALIAS_NAMES, NA_ALIAS_TAGS) if nonascii else (FUNC_NAMES, NS_NAMES, ALIAS_NAMES, ALIAS_TAGS)
+    return _gen_project(rng, name, fn, nsn, aln, tags, nonascii)
+
+
+def _gen_project(rng, name, FUNC_NAMES, NS_NAMES, ALIAS_NAMES, ALIAS_TAGS, nonascii):
     used = set()
     next_def = [1]
     pkgs = []
-    decls, nss = gen_decls(rng, next_def, 6, used, "")
+    decls, nss = gen_decls(rng, next_def, 6, used, "", FUNC_NAMES, NS_NAMES)
     pkgs.append({"key": "", "pkgname": "main", "alias": "", "tagged": False, "decls": decls, "nss": nss})
     nimp = rng.choice([0, 0, 1, 1, 1, 2])
     for pn in rng.sample(IMP_NAMES, nimp):
         alias = rng.choice(["", rng.choice(ALIAS_TAGS)])
         if alias and alias.lower() in [p["alias"].lower() for p in pkgs if p["alias"]]:
             alias = ""
-        decls, nss = gen_decls(rng, next_def, 4, used, alias)
+        decls, nss = gen_decls(rng, next_def, 4, used, alias, FUNC_NAMES, NS_NAMES)
         if not decls:
             continue
         pkgs.append({"key": pn, "pkgname": pn, "alias": alias, "tagged": True, "decls": decls, "nss": nss})
@@ -100,7 +117,7 @@ def gen_project(rng, name):
             default = rng.choice(noarg)
         elif witharg:
             default = rng.choice(witharg)
-    return {"name": name, "pkgs": pkgs, "aliases": aliases, "default": default}
+    return {"name": name, "pkgs": pkgs, "aliases": aliases, "default": default, "nonascii": bool(nonascii)}
 
 
 def _params(d):
@@ -152,7 +169,7 @@ def render(proj):
             ref, p = _ref(proj, defid)
             if p["key"]:
                 referenced.add(p["key"])
-            lines.append("\t%s: %s," % (json.dumps(a), ref))
+            lines.append("\t%s: %s," % (json.dumps(a, ensure_ascii=False), ref))
         extra.append("var Aliases = map[string]interface{}{\n%s\n}\n" % "\n".join(lines))
     if proj["default"] is not None:
         ref, p = _ref(proj, proj["default"])
@@ -284,15 +301,29 @@ STR_WORDS = ["", "a", "hello world", "-v", "--", "-h", "-l", "-t", "1x", "true",
 UNKNOWN_WORDS = ["nosuch", "", "x:", ":build", "build:", "ns", "1", "true", "-v", "--", "al", "one:build", "über", "b u", ":", "a:b:c:d"]
 
 
+# per character: (strings.ToUpper, strings.ToLower) as the Go standard library computes them (filled by the
+# check from harness/unitrun op conv for the characters of the non-ASCII pools); ASCII falls back to Python's
+GO_CASE = {}
+
+
+def go_upper(s):
+    return "".join(GO_CASE[c][0] if c in GO_CASE else (c.upper() if c.isascii() else c) for c in s)
+
+
+def go_lower(s):
+    return "".join(GO_CASE[c][1] if c in GO_CASE else (c.lower() if c.isascii() else c) for c in s)
+
+
 def rand_case(rng, s):
+    """a name as typed: all-lower, all-upper (Go's ToUpper), as declared, or mixed character by character"""
     r = rng.random()
     if r < 0.3:
-        return s.lower()
-    if r < 0.4:
-        return s.upper()
-    if r < 0.55:
+        return go_lower(s)
+    if r < 0.45:
+        return go_upper(s)
+    if r < 0.6:
         return s
-    return "".join(c.upper() if rng.random() < 0.5 else c.lower() for c in s)
+    return "".join(go_upper(c) if rng.random() < 0.5 else go_lower(c) for c in s)
 
 
 def arg_word(rng, ty, inf, valid_bias=0.85):
